@@ -594,7 +594,12 @@ pub fn run_parent(info: &PropInfo, tier: Tier, seed: u64, workers: u32) -> Paren
         "wall_s": wall,
         "violations": violations,
     });
-    let ev_dir = root.join("evidence");
+    // experiments on seeded changes (tools/mutant.sh evalw, tools/eval_seeded.sh) keep their evidence
+    // apart; the registered commands never set this variable
+    let ev_dir = match std::env::var_os("VERIF_EVIDENCE_DIR") {
+        Some(d) if !d.is_empty() => PathBuf::from(d),
+        _ => root.join("evidence"),
+    };
     let _ = fs::create_dir_all(&ev_dir);
     fs::write(ev_dir.join(format!("{}.json", info.id)), serde_json::to_string_pretty(&evidence).unwrap()).expect("write evidence");
     println!(
